@@ -42,6 +42,9 @@ theorem SimInv.advanceAll (H : SimInv I SendOk) (fuel target : Nat) {s : St} (h 
     unfold Jm.advanceAll at hx
     obtain ⟨y, hy, hxy⟩ := List.mem_flatMap.mp hx
     have hyi := H.settleAll 200 h y hy
+    by_cases hidle : (!(Jm.turns y).isEmpty) = true
+    · simp only [hidle, if_true, List.mem_singleton] at hxy; subst hxy; exact hyi
+    simp only [hidle, Bool.false_eq_true, if_false] at hxy
     split at hxy
     · rename_i t _
       exact ih (s := { y with now := t }) (H.now _ _ hyi) x hxy
